@@ -787,6 +787,9 @@ func runC09(c *kit.Ctx) {
 		g.run(c09Case{Family: "random", Path: paths[si%2], PS: rng.Intn(2), ASC: rng.Intn(len(c09ASCs)), Frames: fr})
 	}
 
+	// (7) through the HLS segment generator, which groups AAC frames into one PES (c09_hls.go)
+	c09HLS(c)
+
 	if c.Shard == 0 {
 		c09Probes(c)
 	}
